@@ -102,6 +102,9 @@ CALLER_GHOST = {'LE', 'loop_k', 'stopped', 'left_by_break', 'gr_stopfield', 'fir
 USE_LOG = set()      # contracts applied at call sites since the log was last cleared (dependency closure of a proof)
 
 
+STREAM_HELPERS = {'stream_read', 'stream_read_entire', 'stream_write', 'stream_seek', 'stream_tell', 'stream_size', 'stream_iseof'}
+
+
 class FnContract:
     def __init__(self, qual, cases, requires=None, loops=None, setup=None, tags=(), doc='', stream_models=('bytesio',),
                  pure=False, self_fields=None, lemmas=()):
@@ -293,6 +296,9 @@ class FnContract:
                 for cl in case.ensures(pre2, post):
                     s2.assume(cl[1])
                 restore(s2)
+                if self.qual.split(':', 1)[-1] in STREAM_HELPERS:
+                    # C06 ghost: a stream operation of this call failed (the caller may translate or propagate the error, not drop it)
+                    s2.ghost['io_failed'] = t.TRUE
                 if not s2.infeasible():
                     s2.ghost['calls'] = s2.ghost.get('calls', ()) + ((self.qual, bound, None),)
                     out.append((s2, Raised(ex)))
